@@ -359,6 +359,7 @@ class Check(PropertyCheck):
                   "field wins; a leading empty line before the request line or a method not starting with three letters => Host "
                   "not consulted (the latter is F-C19c, the former is outside the spec side, which puts the request line first); "
                   "no destination address => never ignored; wireguard 10.0.0.53:53 exempt; a failed connect or a client closing "
+                  "Two theorems hold by the shape of the model and get their content from the tie (audit round 6): verdict_uses_options_in_force / verdict_history_independent say that the MODEL carries nothing but the two option lists between connections (that the real addon does not is what the hist cases check); part (a) of ignored_is_passthrough is immediate from nextLayer (its content is the nl/e2e stack comparison). "
                   "before any verdict relays nothing. known() excuses a failure only for input class AND recorded failure; "
                   "known_selftest() runs at every start. Hook completion is immediate in the tie (C04's subject); inside a CONNECT "
                   "tunnel close events are not driven (HttpStream turns half-close into full close: C29's subject); TLS "
